@@ -677,6 +677,48 @@ def cache_comparison_mismatches(snap, cache_rel, sb):
     return bad
 
 
+def cache_forest(snap, cache_rel, sb):
+    """The committed cache file as the next build will see it, in a form that
+    does not depend on the order in which threads finished: per build_file path
+    / subbuild key the record (function, arguments, flags, return value,
+    recorded queries with their answers, nested records), children sorted,
+    paths relative, mtimes blanked (their order follows the schedule), the
+    recorded comparison result reduced to 'matches the file'."""
+    entry = snap.get(cache_rel)
+    if entry is None or entry[0] != 'f':
+        return None
+    try:
+        j = json.loads(gzip.decompress(entry[1]))
+    except Exception:
+        return '<undecodable>'
+    R = sb.R
+
+    def rel(x):
+        if isinstance(x, str) and (x == R or x.startswith(R + '/')):
+            return '<R>' + x[len(R):]
+        if isinstance(x, list):
+            return [rel(y) for y in x]
+        if isinstance(x, dict):
+            return {k: (0 if k == 'timeNs' else rel(v)) for k, v in x.items()}
+        return x
+
+    def node(o):
+        t = o.get('type')
+        if t in ('build_file', 'subbuild'):
+            d = {'type': t, 'funcName': o.get('funcName'), 'args': rel(o.get('args')), 'kwargs': rel(o.get('kwargs')),
+                 'raised': bool(o.get('raised')), 'setupFailed': bool(o.get('setupFailed')),
+                 'returnValue': rel(o.get('returnValue')),
+                 'sub': sorted(canon(node(x)) for x in o.get('suboperations', []))}
+            if t == 'build_file':
+                d['filename'] = rel(o.get('filename'))
+                d['cmp'] = o.get('fileComparison')
+                d['has_result'] = o.get('fileComparisonResult') is not None
+            return d
+        return {'type': t, 'args': rel(o.get('args')), 'returnValue': rel(o.get('returnValue')), 'exc': o.get('exceptionType')}
+    return {'roots': sorted(canon(node(x)) for x in j.get('rootOperations', [])),
+            'createdDirs': sorted(rel(x) for x in j.get('createdDirs', []))}
+
+
 def _collect_times(j, out):
     if isinstance(j, dict):
         if 'timeNs' in j and isinstance(j['timeNs'], int):
